@@ -300,3 +300,34 @@ Proof.
   destruct (unpack_pack_i16 yaw rest Fw) as [Uw Kw]. rewrite Uw, Kw.
   reflexivity.
 Qed.
+
+(* ---------------------------------------------------------------- write histories *)
+
+(* the k-th write of a history is the write of the k-th (address, pieces) alone *)
+Lemma traj_history_stateless : forall h1 w h2,
+  nth (length h1) (traj_history (h1 ++ w :: h2)) None = traj_write (fst w) (snd w).
+Proof.
+  intros h1 w h2. unfold traj_history. rewrite map_app. cbn [map].
+  rewrite app_nth2 by (rewrite map_length; lia). rewrite map_length, Nat.sub_diag. reflexivity.
+Qed.
+
+Lemma traj_write_shape : forall start l a img n, traj_write start l = Some (a, img, n) ->
+  a = start /\ n = Z.of_nat (length img) /\ traj_image l = Some img.
+Proof.
+  intros start l a img n. unfold traj_write. destruct (traj_image l); [|discriminate].
+  intros H. injection H as <- <- <-. repeat split.
+Qed.
+
+(* a trajectory image of compressed segments is read back piece by piece: every segment of the list, in
+   order, with all its coefficients, ending exactly at the end of the image *)
+Lemma csegs_layout : forall segs img rest, traj_image (map seg_of segs) = Some img ->
+  csegs_read (length segs) (img ++ rest) = (segs, rest).
+Proof.
+  induction segs as [|[[[[dms x] y] z] yaw] segs IH]; intros img rest H.
+  - cbn in H. injection H as <-. reflexivity.
+  - cbn [map seg_of traj_image telem_pack] in H.
+    destruct (cseg_pack dms x y z yaw) as [a|] eqn:P; [|discriminate].
+    destruct (traj_image (map seg_of segs)) as [b|] eqn:T; [|discriminate].
+    injection H as <-. cbn [length csegs_read]. rewrite <- app_assoc.
+    rewrite (cseg_layout dms x y z yaw a (b ++ rest) P). rewrite (IH b rest eq_refl). reflexivity.
+Qed.
